@@ -287,6 +287,8 @@ def check_history(role, hist, delta, deviations=None):
         last = len(env.steps) - 1
         viol.append(('c05:loop-%s:%s' % (fin['status'], (fin['exc'] or '').split('(')[0]),
                      'provider loop %s (%s) at event #%d %r; %s' % (fin['status'], fin['exc'], last, hist[last - 1] if 0 < last <= len(hist) else None, where)))
+    if fin.get('exit_sock') == 'open':
+        viol.append(('c05:inv:exit-event-before-close', 'the loop-exited event was set while the transport was still open (%s)' % where))
     prev_state = None
     obs_sig = []
     over = False
